@@ -249,6 +249,25 @@ func familyC14(w *px.Writer, r *rand.Rand, thorough bool) {
 		caseDivider(w, "exhaustive-prefilled", ps, uint(r.Intn(int(maxD))), randMap(r, ps, 50))
 	}
 
+	// a share of exactly one half whose floating-point value may come out just below 0.5
+	// (sum of the priorities = 2 * p * dividend): the rounding primitive decides
+	for pp := uint(1); pp <= 250; pp++ {
+		for d := uint(2); d <= 5; d++ {
+			S := 2 * pp * d
+			for _, l := range []uint{0, pp / 2, pp - 1} {
+				if l >= pp || S < pp+l+pp+1 {
+					continue
+				}
+				h := S - pp - l
+				ps := []uint{h, pp}
+				if l > 0 {
+					ps = append(ps, l)
+				}
+				caseDivider(w, "half-share", ps, d, map[uint]uint{}, "rate")
+			}
+		}
+	}
+
 	for n := 0; n < nFam; n++ {
 		// near-equal large priorities: the truncation family (defect D2 family)
 		k := 2 + r.Intn(8)
